@@ -266,6 +266,51 @@ pub fn item_text(it: &Item) -> String {
 #[derive(Debug, Clone, PartialEq)]
 pub struct Malformed(pub String);
 
+/// Shape of the child relation followed from the root - what `build`, which follows child links only, will meet.
+#[derive(Clone, Copy, PartialEq, Debug)]
+pub enum ChildWalk {
+    /// every node reached once: build terminates whatever the parent links say
+    Tree,
+    /// a node is reached twice but there is no cycle: build terminates (and emits that part twice)
+    Shared,
+    /// a child link leads back to an ancestor: build never terminates
+    Cyclic,
+}
+
+pub fn child_walk(pr: &ParseResult) -> ChildWalk {
+    let nodes = pr.get_nodes();
+    let n = nodes.len();
+    if n == 0 || pr.get_root() >= n {
+        return ChildWalk::Tree;
+    }
+    // iterative depth-first search with colours: 0 = unseen, 1 = on the current path, 2 = finished
+    let mut colour = vec![0u8; n];
+    let mut shared = false;
+    let mut stack: Vec<(usize, u8)> = vec![(pr.get_root(), 0)];
+    while let Some((i, phase)) = stack.pop() {
+        if phase == 1 {
+            colour[i] = 2;
+            continue;
+        }
+        match colour[i] {
+            1 => return ChildWalk::Cyclic,
+            2 => {
+                shared = true;
+                continue;
+            }
+            _ => {}
+        }
+        colour[i] = 1;
+        stack.push((i, 1));
+        for c in [nodes[i].get_left(), nodes[i].get_right()].into_iter().flatten() {
+            if c < n {
+                stack.push((c, 0));
+            }
+        }
+    }
+    if shared { ChildWalk::Shared } else { ChildWalk::Tree }
+}
+
 /// tree shape: links agree, no sharing, no cycle, every node reachable from the root exactly once
 pub fn check_tree(pr: &ParseResult) -> Result<Vec<usize>, Malformed> {
     let nodes = pr.get_nodes();
@@ -332,8 +377,16 @@ pub fn check_tree(pr: &ParseResult) -> Result<Vec<usize>, Malformed> {
             return Err(Malformed("walk-does-not-terminate".into()));
         }
     }
-    if seen.iter().any(|s| !s) {
-        return Err(Malformed("node-unreachable-from-root".into()));
+    for (i, s) in seen.iter().enumerate() {
+        if !*s {
+            // a separator the parser dropped as redundant may stay behind in the node array, fully detached
+            let nd = &nodes[i];
+            let detached = nd.get_parent().is_none() && nd.get_left().is_none() && nd.get_right().is_none();
+            let redundant = is_significant(nd.get_lex_token().get_token_type()) == Some(false);
+            if !(detached && redundant) {
+                return Err(Malformed("node-unreachable-from-root".into()));
+            }
+        }
     }
     Ok(order)
 }
@@ -398,6 +451,10 @@ pub fn check_attribution<D: GarnishData>(pr: &ParseResult, bd: &BuildData<D>) ->
     for (i, nd) in nodes.iter().enumerate() {
         let d = nd.get_definition();
         if !needs_instruction(d) || hit[i] {
+            continue;
+        }
+        // a dropped redundant separator left behind fully detached is not part of the tree
+        if i != pr.get_root() && nd.get_parent().is_none() && nd.get_left().is_none() && nd.get_right().is_none() && is_significant(nd.get_lex_token().get_token_type()) == Some(false) {
             continue;
         }
         if d == Definition::List || d == Definition::CommaList {
@@ -567,6 +624,7 @@ pub fn check_stream<D: Subject>(d: &D, before: &Before, bd: &BuildData<D>, node_
 pub struct Outcome {
     pub stage_fail: Option<Fail>,       // first Err/panic in lex/parse/build(simple)/build(basic) - panics are C03
     pub c04: Option<Malformed>,
+    pub cyclic: bool,                   // the child relation from the root has a cycle: build was not run
     pub c05: Option<(String, Malformed)>,
     pub accepted: bool,
     pub ms: f64,
@@ -608,7 +666,7 @@ fn build_and_check<D: Subject>(pr: &ParseResult, pre: bool, o: &mut Outcome, wan
 
 pub fn run_text(text: &str, want_c05: bool) -> Outcome {
     let t0 = Instant::now();
-    let mut o = Outcome { stage_fail: None, c04: None, c05: None, accepted: false, ms: 0.0 };
+    let mut o = Outcome { stage_fail: None, c04: None, cyclic: false, c05: None, accepted: false, ms: 0.0 };
     let r = (|| -> Result<(), Fail> {
         let toks = lex_g(text)?;
         let pr = parse_g(&toks)?;
@@ -616,7 +674,13 @@ pub fn run_text(text: &str, want_c05: bool) -> Outcome {
         match check_tree(&pr) {
             Err(m) => {
                 o.c04 = Some(m);
-                return Ok(());
+                // a result whose child relation is cyclic is never handed to build (it would not return; C03 reports
+                // it); one with orphan nodes, disagreeing parent links, shared or out-of-range children is built under
+                // the panic guard to see what build makes of it
+                if child_walk(&pr) == ChildWalk::Cyclic {
+                    o.cyclic = true;
+                    return Ok(());
+                }
             }
             Ok(order) => {
                 if let Err(m) = check_tokens(&pr, &toks, &order) {
@@ -730,10 +794,8 @@ fn c03_kind(text: &str) -> Option<String> {
     let o = run_text(text, false);
     match (&o.stage_fail, &o.c04) {
         (Some(Fail::Panic(stage, m)), _) => Some(format!("panic-{}[{}]", stage, panic_kind(m))),
-        // a tree with a cycle or a dangling link makes build run forever / index out of bounds: parse must not return it
-        (_, Some(Malformed(m))) if ["node-shared-or-on-cycle", "walk-does-not-terminate", "dangling-left-child", "dangling-right-child", "dangling-parent", "self-child", "root-out-of-range"].contains(&m.as_str()) => {
-            Some(format!("parse-returns-unbuildable-tree[{}]", m))
-        }
+        // a child link that leads back to an ancestor makes build run forever: parse must not return such a result
+        (_, Some(Malformed(m))) if o.cyclic => Some(format!("parse-returns-unbuildable-tree[cycle; {}]", m)),
         _ => None,
     }
 }
@@ -799,9 +861,9 @@ impl Property for C03 {
     }
     fn meta(&self, tier: Tier) -> Meta {
         Meta {
-            rule: format!("K1: every sequence of 32 token classes (one representative spelling each: values, prefix/suffix/binary operators, brackets, separators, apply-by-identifier forms, annotations) of length <= 3 with every choice of 'nothing or one space' between neighbours, length 4 over {}; K2: every string over a 41-symbol alphabet (one per lexer character class plus 2-, 2- and 4-byte characters) of length <= {}; K3: 40 scaling families at 64..1024 repetitions. Each input goes through lex, parse, a structural tree check, then build into SimpleGarnishData and BasicGarnishData. Verdict: no stage panics, aborts, overflows the stack or exceeds its wall budget (supervisor-confirmed), parse never returns a tree build cannot terminate on (cycle / dangling link - such trees are not handed to build), K3 time <= 50 ms + 3 us * n^2. Non-trivial = input that gets past lex; distinct by text.", tier.pick("a 16-class core", "all 32 classes"), tier.pick(3, 4)),
+            rule: format!("K1: every sequence of 32 token classes (one representative spelling each: values, prefix/suffix/binary operators, brackets, separators, apply-by-identifier forms, annotations) of length <= 3 with every choice of 'nothing or one space' between neighbours, length 4 over {}; K2: every string over a 41-symbol alphabet (one per lexer character class plus 2-, 2- and 4-byte characters) of length <= {}; K3: 40 scaling families at 64..1024 repetitions. Each input goes through lex, parse, a structural tree check, then build into SimpleGarnishData and BasicGarnishData. Verdict: no stage panics, aborts, overflows the stack or exceeds its wall budget (supervisor-confirmed), parse never returns a result whose child links contain a cycle (build would not terminate on it - such a result is not handed to build; results with orphan, shared or out-of-range children are built under the panic guard), K3 time <= 50 ms + 3 us * n^2. Non-trivial = input that gets past lex; distinct by text.", tier.pick("a 16-class core", "all 32 classes"), tier.pick(3, 4)),
             assumptions: vec![
-                "a parse result with a cycle or dangling child is reported as a totality violation without executing build on it (build on such a tree does not terminate / indexes out of bounds); the claim is confirmed per signature by the replay command in a sacrificial process".into(),
+                "a parse result whose child links contain a cycle is reported as a totality violation without executing build on it (build follows child links with a work stack and cannot terminate on a cycle)".into(),
                 "the polynomial-time clause is checked only as a blunt quadratic wall-clock bound on 40 repeat families; a change of exponent below that is not detected".into(),
                 "random long soups are replaced by the exhaustive short tiers and the scaling families".into(),
             ],
